@@ -342,3 +342,22 @@ Theorem C06_ut_der_verbatim_refuted :
   ut_canon u_2026_hm 0 = Some u_2026 /\ ut_canon u_2026_off 0 = Some u_2026 /\ ut_canon u_2026 0 = Some u_2026.
 Proof. exact ut_der_verbatim_refuted. Qed.
 Print Assumptions C06_ut_der_verbatim_refuted.
+
+(* compare_struct of GeneralizedTime, instants equal: the fraction branch *)
+Theorem C06_gt_compare_fix_is_value_order av ad bv bd : 0 <= ad <= 9 -> 0 <= bd <= 9 ->
+  frac_cmp_fix av ad bv bd = (nanos av ad ?= nanos bv bd).
+Proof. exact (frac_cmp_fix_nanos av ad bv bd). Qed.
+Print Assumptions C06_gt_compare_fix_is_value_order.
+
+Theorem C06_gt_compare_fraction_partial av ad bv bd : 0 <= bd -> ad = bd ->
+  frac_cmp_c av ad bv bd = frac_cmp_fix av ad bv bd.
+Proof. exact (frac_cmp_c_partial av ad bv bd). Qed.
+Print Assumptions C06_gt_compare_fraction_partial.
+
+Theorem C06_gt_compare_fraction_refuted :
+  frac_cmp_fix 5 1 50 2 = Eq /\ frac_cmp_c 5 1 50 2 = Lt /\
+  frac_cmp_fix 0 0 0 1 = Eq /\ frac_cmp_c 0 0 0 1 = Lt /\
+  frac_cmp_fix 5 1 25 2 = Gt /\ frac_cmp_c 5 1 25 2 = Lt /\
+  frac_cmp_fix 25 2 3 1 = Lt /\ frac_cmp_c 25 2 3 1 = Gt.
+Proof. exact frac_cmp_c_refuted. Qed.
+Print Assumptions C06_gt_compare_fraction_refuted.
